@@ -208,6 +208,8 @@ def check(db, rep):
     _offset_faithful(db, rep)
     _stored_valid(db, rep)
     _legacy_fields(db, rep)
+    _nested_found(db, rep)
+    _raw_cache_coupled(db, rep)
     _write_back_and_resolve(db, rep)
 
 
@@ -687,3 +689,248 @@ def _legacy_fields(db, rep):
         r12.violation('ExtractMorpho', '%s:%d' % (em.file, em.line), bad)
     else:
         r12.ok('ExtractMorpho', '%d legacy field lists over %s' % (cases, fields), '%s:%d' % (em.file, em.line))
+
+
+def _morph_hooks(LL, known=('sing', 'plur', 'nomn', 'gent', '3per')):
+    """Morphology as a set of grammemes printed in a canonical order: what C17 r2 decides about the tables; unknown tags are dropped"""
+    def canon(arg):
+        toks = [bytes(x).decode('utf-8', 'replace') for x in arg] if isinstance(arg, list) else [t.strip() for t in bytes(arg).decode('utf-8', 'replace').split(',')]
+        return [k for k in known if k in toks]
+
+    def on_call(it, fn, n, env):
+        cs = n.get('cs') or ''
+        if n['k'] in ('CXXConstructExpr', 'CXXTemporaryObjectExpr') and (n.get('cls') or '') == LL + 'Morphology' and len(n.get('args', [])) == 1 and not n.get('copyctor') and not n.get('movector'):
+            return Obj(__cls__=LL + 'Morphology', tags=canon(it.eval(fn, fn.stmts[n['args'][0]], env)))
+        if cs == LL + 'Morphology::ToString' and 'obj' in n:
+            return bytearray(','.join(it.eval(fn, fn.stmts[n['obj']], env)['tags']).encode())
+        if cs == LL + 'Morphology::empty' and 'obj' in n:
+            return len(it.eval(fn, fn.stmts[n['obj']], env)['tags']) == 0
+        if cs == 'std::empty' and n.get('args'):
+            o = it.eval(fn, fn.stmts[n['args'][0]], env)
+            if isinstance(o, Obj) and o.get('__cls__') == LL + 'Morphology':
+                return len(o['tags']) == 0
+        if cs == 'std::stoi' and n.get('args'):
+            t_ = bytes(it.eval(fn, fn.stmts[n['args'][0]], env)).decode('ascii', 'replace')
+            try:
+                return int(t_)
+            except ValueError:
+                raise OutOfFragment('std::stoi("%s") throws std::invalid_argument' % t_)
+        if cs == '__assert_fail':
+            return None
+        return NOT_HANDLED
+    return on_call
+
+
+def _nested_found(db, rep):
+    """r13: Reference::ExtractAll with the real Reference::Parse (only Morphology abstract) on texts where a word-and-brace wrapper encloses a
+    well-formed reference: the wrapper is not a reference (no entity is called `note @{X1`), and the reference inside it is found - with its
+    range - whatever the number of its grammemes."""
+    r13 = rep.rule('r13', 'NESTED-FOUND: a marker that encloses another marker is not a reference, and the well-formed reference inside it is found (real Parse: the first field of a reference is a name, not text with a marker in it)', 1)
+    ea = db.fn(L + 'Reference::ExtractAll', required=False)
+    if ea is None:
+        r13.broken('anchor vanished: Reference::ExtractAll')
+        return
+    inners = ['@{X1|nomn,sing}', '@{X1|nomn}', '@{X12|sing|3per}', '@{-1|basic}']
+    wrappers = ['see @{note %s more} end', '@{note: %s}', '@{x|%s}', 'Ж @{Я %s} ю', '@{a %s|nomn}', '@{UNKN%s@{1|}|nomn}']
+    bad, cases = None, 0
+    try:
+        for w in wrappers:
+            for inner in inners:
+                text = w % inner
+                cases += 1
+                got = Interp(db, on_call=_morph_hooks(L), max_steps=2000000).call(ea, [text.encode('utf-8')])
+                got_r = [(r['position']['start'], r['position']['finish']) for r in (got or [])]
+                at = text.index(inner)
+                want = (at, at + len(inner))
+                enclosing = [g for g in got_r if g[0] < want[0] and g[1] > want[1]]
+                if (enclosing or want not in got_r) and bad is None:
+                    bad = 'ExtractAll("%s") finds %s: %s' % (text, got_r, ('the wrapper [%d,%d) is taken for a reference to an entity whose name contains a marker, so %s is neither resolved, listed nor renamed' % (enclosing[0] + (inner,)))
+                                                              if enclosing else 'the reference %s at [%d,%d) is not found' % ((inner,) + want))
+    except OutOfFragment as e:
+        r13.broken('ExtractAll / Parse outside the evaluable fragment: %s' % e)
+        return
+    if bad:
+        r13.violation('ExtractAll:wrapped', '%s:%d' % (ea.file, ea.line), bad)
+    else:
+        r13.ok('ExtractAll:wrapped', '%d wrapped references found, no wrapper taken for a reference' % cases, '%s:%d' % (ea.file, ea.line))
+
+
+def _raw_cache_coupled(db, rep):
+    """r14: ManagedText keeps a raw text and the resolution of it. Every method that assigns the raw text writes the cache on every path to its
+    exit (clears it or stores the new resolution): a conditional re-resolution (UpdateFrom does nothing while resolving is switched off) is
+    not enough - Str() would keep answering with the resolution of the previous text."""
+    r14 = rep.rule('r14', 'RAW-CACHE-COUPLED: whoever assigns the raw text of a ManagedText also clears or rewrites its cached resolution on every path', 1)
+    MT = L + 'ManagedText'
+    ms = [f for f in db.methods_of(MT) if f.has_cfg()]
+    if not ms:
+        r14.broken('anchor vanished: ManagedText')
+        return
+
+    def member(f, n, name):
+        n = f.strip(n)
+        return n is not None and n['k'] == 'MemberExpr' and n.get('member') == name
+
+    def cache_writes(f):
+        out = []
+        for c in f.calls():
+            if c['k'] == 'CXXOperatorCallExpr' and c.get('op') == '=' and c.get('args') and member(f, f.stmts[c['args'][0]], 'cache'):
+                out.append(f.position_of(c))
+            if c['k'] == 'CXXMemberCallExpr' and (c.get('cs') or '').split('::')[-1] in ('clear', 'assign') and 'obj' in c and member(f, f.stmts[c['obj']], 'cache'):
+                out.append(f.position_of(c))
+        return [p for p in out if p is not None]
+    memo = {}
+
+    def must_write(g, depth=0):
+        if g.name in memo:
+            return memo[g.name]
+        memo[g.name] = False
+        sites = cache_writes(g)
+        if depth < 3:
+            for c in g.calls():
+                for t in db.callees(g, c):
+                    if t.cls == MT and t is not g and t.has_cfg() and must_write(t, depth + 1):
+                        p_ = g.position_of(c)
+                        if p_ is not None:
+                            sites.append(p_)
+        exits = success_exits(g, failure_literals=())
+        r = bool(sites) and not paths_avoiding(g, [g.graph()[1]], sites, exits)
+        memo[g.name] = r
+        return r
+    from engine.cfgq import success_exits
+    n_w = 0
+    for f in sorted(ms, key=lambda x: x.name):
+        raws = [c for c in f.calls() if c['k'] == 'CXXOperatorCallExpr' and c.get('op') == '=' and c.get('args') and member(f, f.stmts[c['args'][0]], 'rawText')]
+        if not raws or f.rec.get('ctor') or f.name.split('::')[-1].startswith('operator'):
+            continue
+        for c in raws:
+            n_w += 1
+            inst = '%s:rawText' % f.name.split('::')[-1]
+            sites = cache_writes(f)
+            for c2 in f.calls():
+                for t in db.callees(f, c2):
+                    if t.cls == MT and t is not f and t.has_cfg() and must_write(t):
+                        p_ = f.position_of(c2)
+                        if p_ is not None:
+                            sites.append(p_)
+            pos = f.position_of(c)
+            exits = success_exits(f, failure_literals=())
+            if pos is not None and paths_avoiding(f, [pos], sites, exits):
+                r14.violation(inst, f.loc(c), '`%s` replaces the raw text and a path reaches the exit without writing the cache (the re-resolution that follows is skipped while TextEnvironment::skipResolving is set): '
+                              'Raw() is the new text, Str() still answers with the resolution of the old one' % (c.get('txt') or '')[:50])
+            else:
+                r14.ok(inst, 'followed on every path by a write of the cache', f.loc(c))
+    if not n_w:
+        r14.broken('no method of ManagedText assigns rawText: the rule has lost its sites')
+
+
+def resolution_idempotent_rule(db, r15):
+    """(C10 r11; needs the CCL and cclLang units) Thesaurus::UpdateState and OnTermChange interpreted (with LexicalTerm::UpdateFrom and ManagedText::UpdateFrom from their source) on
+    thesauri whose terms mention each other, loops included. Supplied: the order the term graph gives, and the resolver as the function it is
+    - the raw text with every mention replaced by what the context answers for it, i.e. the mentioned term's Str(). Required: resolving is a
+    function of the raw texts - running the same update again changes nothing. A term on a loop of references (the user typed the own
+    alias) must not be resolved from its own previous resolution: that nests one more copy on every update, without bound."""
+    import re
+    T = 'ccl::semantic::Thesaurus'
+    fns = {nm: db.fn(T + '::' + nm, required=False) for nm in ('UpdateState', 'OnTermChange')}
+    if any(v is None for v in fns.values()):
+        r15.broken('anchor vanished: Thesaurus::UpdateState / OnTermChange')
+        return
+
+    def loops_of(raws):
+        ment = {u: {int(m) for m in re.findall(r'@\{X(\d+)\}', t) if int(m) in raws} for u, t in raws.items()}
+        reach = {u: set(v) for u, v in ment.items()}
+        ch = True
+        while ch:
+            ch = False
+            for u in reach:
+                new = set(reach[u])
+                for v in list(reach[u]):
+                    new |= reach[v]
+                if new != reach[u]:
+                    reach[u] = new
+                    ch = True
+        comps, seen = [], set()
+        for u in sorted(raws):
+            if u in seen or u not in reach[u]:
+                continue
+            comp = {v for v in raws if v in reach[u] and u in reach[v]} | {u}
+            seen |= comp
+            comps.append(sorted(comp))
+        return comps
+
+    def build(raws):
+        return {u: Obj(__cls__='ccl::semantic::TextConcept', uid=u, alias=('X%d' % u).encode(),
+                       term=Obj(__cls__=L + 'LexicalTerm', text=Obj(__cls__=L + 'ManagedText', rawText=bytearray(t.encode()), cache=bytearray()), manualForms={}, cachedForms={}),
+                       definition=Obj(__cls__=L + 'ManagedText', rawText=bytearray(), cache=bytearray())) for u, t in raws.items()}
+
+    def run(name, raws, order, times):
+        storage = build(raws)
+
+        def str_of(u):
+            t = storage[u]['term']['text']
+            return bytes(t['cache']) if len(t['cache']) else bytes(t['rawText'])
+
+        def on_call(it, fn, n, env):
+            cs = n.get('cs') or ''
+            last = cs.split('::')[-1]
+            if last in ('TermGraph', 'DefGraph') and cs.startswith(T):
+                return Obj(__kind__='graph', which=last)
+            if last in ('TopologicalOrder', 'Sort') and 'CGraph' in cs:
+                return list(order)
+            if last == 'GetAllLoopsItems' and 'CGraph' in cs:
+                return [set(c) for c in loops_of(raws)]
+            if last == 'ExpandOutputs' and 'CGraph' in cs:
+                o = it.eval(fn, fn.stmts[n['obj']], env) if 'obj' in n else None
+                return set(order) if isinstance(o, Obj) and o.get('which') == 'TermGraph' else set()
+            if last == 'Context' and cs.startswith(T):
+                return Obj(__kind__='context')
+            if n['k'] in ('CXXConstructExpr', 'CXXTemporaryObjectExpr') and (n.get('cls') or '') == L + 'RefsManager':
+                return Obj(__kind__='refsmanager')
+            if cs == L + 'RefsManager::Resolve' and n.get('args'):
+                raw = bytes(it.eval(fn, fn.stmts[n['args'][0]], env)).decode()
+                out = re.sub(r'@\{X(\d+)\}', lambda m: str_of(int(m.group(1))).decode() if int(m.group(1)) in storage else '?', raw)
+                return bytearray(out.encode())
+            if cs == L + 'TextEnvironment::Instance':
+                return Obj(skipResolving=False)
+            if cs == '__assert_fail':
+                return None
+            return NOT_HANDLED
+        this = Obj(__cls__=T, storage=storage, context=Obj(__kind__='context'))
+        snaps = []
+        for _ in range(times):
+            it_ = Interp(db, on_call=on_call, max_steps=400000)
+            it_.call(fns[name], [] if name == 'UpdateState' else [order[0]], this)
+            snaps.append({u: str_of(u).decode() for u in storage})
+        return snaps
+    cases = [
+        ('a term that mentions itself', {1: 'big @{X1} thing'}, [1]),
+        ('two terms that mention each other', {1: 'owner of @{X2}', 2: 'thing of @{X1}'}, [1, 2]),
+        ('the same loop visited in the other order', {1: 'owner of @{X2}', 2: 'thing of @{X1}'}, [2, 1]),
+        ('a chain without a loop', {1: 'man', 2: 'father of @{X1}', 3: 'friend of @{X2}'}, [1, 2, 3]),
+        ('a loop with a tail', {1: 'a @{X1}', 2: 'b @{X1}'}, [1, 2]),
+    ]
+    for name in ('UpdateState', 'OnTermChange'):
+        bad = None
+        try:
+            for what, raws, order in cases:
+                s1, s2, s3 = run(name, raws, order, 3)
+                if (s2 != s1 or s3 != s2) and bad is None:
+                    u = next(u_ for u_ in s1 if s2[u_] != s1[u_] or s3[u_] != s2[u_])
+                    bad = '%s: the term of X%d (raw text "%s") reads "%s" after one update, "%s" after the second and "%s" after the third: every update resolves the term from its own previous resolution' % (
+                        what, u, raws[u], s1[u], s2[u], s3[u])
+                if any(sorted(order) == c_ for c_ in loops_of(raws)) and bad is None:      # every order of the members of one loop is a legal one
+                    other = run(name, raws, list(reversed(order)), 1)[0]
+                    if other != s1:
+                        u = next(u_ for u_ in s1 if other[u_] != s1[u_])
+                        bad = '%s: visiting the terms in the order %s gives X%d = "%s", in the order %s it gives "%s": the resolved text of a loop depends on the history that produced the order (an edited object and the same object after a load differ)' % (
+                            what, order, u, s1[u], list(reversed(order)), other[u])
+                if what == 'a chain without a loop' and s1[3] != 'friend of father of man' and bad is None:
+                    bad = 'a chain without a loop resolves to "%s", expected "friend of father of man"' % s1[3]
+        except OutOfFragment as e:
+            r15.broken('Thesaurus::%s outside the evaluable fragment: %s' % (name, e))
+            continue
+        f_ = fns[name]
+        if bad:
+            r15.violation(name, '%s:%d' % (f_.file, f_.line), bad)
+        else:
+            r15.ok(name, '%d thesauri, loops included: a second and a third update change nothing, and the members of a loop can be visited in either order' % len(cases), '%s:%d' % (f_.file, f_.line))
